@@ -70,6 +70,12 @@ func (srv4) MsgBytes(m interface{}) []byte {
 }
 
 func (srv4) Valid(i int, t *simrt.Tape) []byte {
+	if t.Coin(1, 3) {
+		// the option-rich hand-encoded packets of the C08 corpus, made unique by the transaction id
+		b := v4Packet(t.Choose(40))
+		b[4], b[5], b[6], b[7] = 0x52, byte(i>>16), byte(i>>8), byte(i)
+		return b
+	}
 	typ := dhcpv4.MessageType(1 + t.Choose(8))
 	hw := net.HardwareAddr{2, 0, 0, byte(i >> 8), byte(i), byte(t.Choose(4))}
 	mods := []dhcpv4.Modifier{
@@ -89,12 +95,20 @@ func (srv4) Valid(i int, t *simrt.Tape) []byte {
 	if t.Coin(1, 4) {
 		mods = append(mods, dhcpv4.WithGeneric(dhcpv4.GenericOptionCode(224), bytes.Repeat([]byte{byte(i)}, 1+t.Choose(200))))
 	}
+	if t.Coin(1, 3) {
+		// relayed / renewing clients: the address fields of the header are in use
+		mods = append(mods, dhcpv4.WithGatewayIP(net.IPv4(10, 9, byte(t.Choose(3)), 1)), dhcpv4.WithClientIP(net.IPv4(10, 8, 0, byte(1+t.Choose(9)))))
+	}
 	m, err := dhcpv4.New(mods...)
 	if err != nil {
 		panic(err)
 	}
 	if t.Coin(1, 3) {
 		m.OpCode = dhcpv4.OpcodeBootReply
+	}
+	if t.Coin(1, 4) {
+		m.ServerHostName = fmt.Sprintf("srv-%d.example", i)
+		m.BootFileName = "/boot/" + fmt.Sprint(i)
 	}
 	return m.ToBytes()
 }
@@ -108,12 +122,14 @@ func (srv4) ExpectPeer(from net.Addr) string {
 }
 
 func (srv4) Sender(t *simrt.Tape) net.Addr {
-	port := 68 + t.Choose(3)*1000
-	switch t.Weighted(4, 2, 2) {
+	port := []int{68, 1068, 2068, 0, 65535}[t.Weighted(4, 2, 2, 1, 1)]
+	switch t.Weighted(4, 2, 2, 1) {
 	case 1:
-		return &net.UDPAddr{IP: net.IPv4zero, Port: port}
+		return &net.UDPAddr{IP: net.IPv4zero, Port: port} // 16-byte form of 0.0.0.0
 	case 2:
 		return &net.UDPAddr{IP: nil, Port: port}
+	case 3:
+		return &net.UDPAddr{IP: net.IP{0, 0, 0, 0}, Port: port} // 4-byte form
 	}
 	return &net.UDPAddr{IP: net.IPv4(192, 168, byte(t.Choose(3)), byte(1+t.Choose(200))), Port: port}
 }
@@ -148,6 +164,18 @@ func (srv6) MsgBytes(m interface{}) []byte {
 }
 
 func (srv6) Valid(i int, t *simrt.Tape) []byte {
+	if t.Coin(1, 3) {
+		// the hand-encoded corpus of C08: every option type, relay chains
+		var b []byte
+		if t.Coin(1, 2) {
+			b = v6Message(t.Choose(40))
+			b[1], b[2], b[3] = 0x52, byte(i>>8), byte(i)
+		} else {
+			b = v6Relay(t.Choose(40), 1+t.Choose(3))
+			b[1] = byte(i) // hop count: makes relayed datagrams distinguishable
+		}
+		return b
+	}
 	types := []dhcpv6.MessageType{dhcpv6.MessageTypeSolicit, dhcpv6.MessageTypeAdvertise, dhcpv6.MessageTypeRequest, dhcpv6.MessageTypeConfirm,
 		dhcpv6.MessageTypeRenew, dhcpv6.MessageTypeRebind, dhcpv6.MessageTypeReply, dhcpv6.MessageTypeRelease, dhcpv6.MessageTypeDecline,
 		dhcpv6.MessageTypeReconfigure, dhcpv6.MessageTypeInformationRequest}
